@@ -343,6 +343,11 @@ CallUnit(P, cal, actuals, S) ==
          ELSE EvalE(P, a, S.env, <<>>)
       hostenv == IF cal.host # "" THEN S.env ELSE [n \in {} |-> Undef]
       own == DeclNames(cal)
+      \* ---- derived-type dummies (C34): a record variable r is a placeholder decl r (type "rec") plus one decl per
+      \* component, named r%f.., carrying rec |-> "r" and field |-> "%f.."; a record actual x associates the dummy's
+      \* component r%f with the caller's x%f (components keep the bounds their type declares)
+      BoundComp(n) == "rec" \in DOMAIN Decl(cal, n) /\ isarg(Decl(cal, n).rec)
+      CompActual(n) == LET d == Decl(cal, n) a == actuals[argidx(d.rec)] IN IF a.k = "var" THEN a.name \o d.field ELSE ""
       \* ---- array dummies declared with "xdims" (explicit shape with expression bounds / assumed shape): the dummy is
       \* associated with a sequence of elements of the actual's base array: the whole array, an array section, or
       \* (sequence association) the elements from an element actual to the end of the array, in array element order
@@ -387,7 +392,8 @@ CallUnit(P, cal, actuals, S) ==
                                    S.env[b.base].data[b.ixs[CHOOSE k \in 1..Len(b.dorder) : b.dorder[k] = ix]]])]
       env0 == TLCEval([n \in own \cup DOMAIN hostenv |->
                  IF n \in own
-                 THEN (IF isarg(n) /\ HasX(Decl(cal, n)) THEN XVal(argidx(n))
+                 THEN (IF BoundComp(n) THEN (IF CompActual(n) \in DOMAIN S.env THEN S.env[CompActual(n)] ELSE Err("record-association"))
+                       ELSE IF isarg(n) /\ HasX(Decl(cal, n)) THEN XVal(argidx(n))
                        ELSE IF isarg(n)
                        THEN LET v == actualval(argidx(n))
                                 d == Decl(cal, n)
@@ -402,7 +408,7 @@ CallUnit(P, cal, actuals, S) ==
                        ELSE Undef)
                  ELSE hostenv[n]])
       \* locals are initialised after the arguments are bound (initialisers may mention arguments)
-      env1 == TLCEval([n \in DOMAIN env0 |-> IF n \in own /\ ~isarg(n) THEN InitLocal(P, Decl(cal, n), env0) ELSE env0[n]])
+      env1 == TLCEval([n \in DOMAIN env0 |-> IF n \in own /\ ~isarg(n) /\ ~BoundComp(n) THEN InitLocal(P, Decl(cal, n), env0) ELSE env0[n]])
       argerr == {i \in 1..Len(cal.args) : IsErr(env0[cal.args[i]]) /\ env0[cal.args[i]].why # "undef"}
       R == ExecBody(P, cal, cal.body, [env |-> env1, out |-> S.out, st |-> "ok", why |-> ""])
   IN
@@ -410,7 +416,8 @@ CallUnit(P, cal, actuals, S) ==
   ELSE IF R.st = "err" THEN [st |-> "err", why |-> R.why, env |-> S.env, out |-> S.out, ret |-> Undef]
   ELSE IF R.st \in {"exit", "cycle"} THEN [st |-> "err", why |-> "exit-outside-loop", env |-> S.env, out |-> S.out, ret |-> Undef]
   ELSE
-  LET \* copy-out: every actual that is a variable / element reference and whose dummy may be defined
+  LET wcomps == TLCEval({c \in own : BoundComp(c) /\ Decl(cal, c).intent # "in"})     \* record components to copy out
+      \* copy-out: every actual that is a variable / element reference and whose dummy may be defined
       back1 == TLCEval([n \in DOMAIN S.env |->
                   LET writers == {i \in 1..Len(actuals) : actuals[i].k = "var" /\ actuals[i].name = n
                                                           /\ Decl(cal, cal.args[i]).intent # "in" /\ ~HasX(Decl(cal, cal.args[i]))}
@@ -421,6 +428,7 @@ CallUnit(P, cal, actuals, S) ==
                              THEN [S.env[n] EXCEPT !.data = [ix \in DOMAIN S.env[n].data |->
                                        v.data[[d \in 1..Len(ix) |-> ix[d] - S.env[n].lb[d] + v.lb[d]]]]]
                              ELSE v
+                     ELSE IF \E c \in wcomps : CompActual(c) = n THEN R.env[CHOOSE c \in wcomps : CompActual(c) = n]
                      ELSE IF cal.host # "" /\ n \notin own THEN R.env[n]
                      ELSE S.env[n]])
       \* element actuals a(i): copy the scalar result back into the element
